@@ -575,7 +575,7 @@ pub fn process<I: BufRead, O: Write>(
                         let value = context.replace_all(buf);
                         context.define(mcro, value);
                     } else {
-                        let mut rex = format!("\\b{}\\(", mcro);
+                        let mut rex = format!("\\b{}\\s*\\(", mcro);
                         let params = caps.get(2).unwrap().as_str();
                         // A parameter hides a macro of the same name: take the parameters out of
                         // the body before the already defined macros are expanded in it
